@@ -29,11 +29,12 @@ CLAIMS = {
              'guarded division (the returned term tabulated over finite, +-inf, NaN and overflowing quotients); the two suffix tables agree with 1000^k; implicit + / leading 0 insertion and its guard; every peek..return Ok(non-None) path in src/syntax consumes the token; '
              'stage order of tokinize. G9 a detached prefix sign negates (tabulated on positive, negative and fractional literals), variables / percentages / money get exactly one PrefixUnary wrapper, every numeric DataItem::unary negates on Minus and keeps the value on Plus. Not decided: independence from spacing over all strings, exact f64 results.'),
     'C03': dict(
-        technique='dominance / who-may-write / use-def rules over MIR',
+        technique='dominance / who-may-write / use-def rules over MIR; path-following abstract interpretation of the substitution search over order types (E6c)',
         ref='DESIGN.md section 5 C03',
         text='Static. Decided clauses: the only write of VariableInfo.data is dominated by successful evaluation and stores the evaluation result (value, not the expression); '
              'Session.variables is written only by add_variable, called only from the assignment parser after the right-hand side parsed; both key constructions lower-case; '
-             'no DataItem implementor has interior mutability. Not decided: closest-then-longest substitution over all histories.'),
+             'no DataItem implementor has interior mutability; V7 the search for the next variable touches match positions and name lengths only through copies and comparisons, and for every order type of up to three candidate matches, in every map order, '
+             'the drained span and the inserted binding are those of the closest, then longest match. Not decided: more than three simultaneous matches as such (the fold is tabulated, not proved inductively); what find_location matches; histories as such.'),
     'C04': dict(
         technique='ownership/effect rules: interior-mutable cell writes by receiver origin, who-may-call for ambient inputs, coupled-state rule for the session cursor',
         ref='DESIGN.md section 5 C04',
